@@ -42,7 +42,7 @@ def snapshot_context(context: Context) -> Context:
     # is preserved for all (potentially nested) forloops.
     #
     # For non-forloop layers, we just make shallow copies.
-    dicts_with_copied_forloops: List[CopiedDict] = []
+    dicts_with_copied_forloops: List[dict] = []
 
     # NOTE: For better performance, we iterate over the dicts in reverse order.
     #       This is because:
@@ -60,7 +60,13 @@ def snapshot_context(context: Context) -> Context:
             break
 
         # Copy the dict
-        ctx_dict_copy = CopiedDict(ctx_dict)
+        #
+        # NOTE: The top-most layer of the snapshot is NOT marked as "already copied". The snapshot is what
+        #       a (deferred) template is rendered with, and tags that assign variables in place
+        #       (e.g. `{% firstof ... as var %}`, `{% cycle ... as var %}`) write into the top-most layer.
+        #       So snapshots made later during that render must copy this layer again.
+        is_top_layer = ctx_dict_index == len(context.dicts) - 1
+        ctx_dict_copy = dict(ctx_dict) if is_top_layer else CopiedDict(ctx_dict)
         if "forloop" in ctx_dict:
             ctx_dict_copy["forloop"] = ctx_dict["forloop"].copy()
 
